@@ -364,6 +364,12 @@ func runOapiCompute(prop string) func(h *H) {
 			res := env.compute(r, wd)
 			outcomes[fmt.Sprint(res.status, res.outcome)]++
 			h.emit(h.line(prop, "oapi").oreq(r).Bar().oresp(r.stats, res))
+			if r.lt.kind == "stored" {
+				// the same stored reference once more: a compute must not have changed what is stored
+				res2 := env.compute(r, wd)
+				h.emit(h.line(prop, "oapi").oreq(r).Bar().oresp(r.stats, res2))
+				g.count("stored-ref-repeated")
+			}
 		}
 		if prop == "C03" {
 			// default epsilon = 1e-6/n with n decided by a much larger initial trust, slow convergence:
@@ -436,7 +442,27 @@ func runC13(h *H) {
 		env := newOapiEnv()
 		steps := g.intn(h.budget(8, 60)) + 1
 		w := &W{}
-		for s := 0; s < steps; s++ {
+		if k%8 == 5 {
+			// scripted prefix: a stored matrix that is LARGE but holds no entry (none sent, or only zeros,
+			// which the loader drops), then merges of smaller matrices: the size must stay the maximum
+			id := ids[g.intn(len(ids))]
+			big := mRef{kind: "inline", size: g.intn(4) + 4}
+			if g.intn(2) == 0 {
+				big.entries = []mEntry{{big.size - 1, 0, 0}, {0, big.size - 1, 0}}
+			}
+			res := env.do("PUT", "/local-trust/"+id, mustJSON(big.json()), wd)
+			w.Str("put").Str(id).Bool(false).mref(big).Bar().storeBody(res)
+			for j := 0; j < 2; j++ {
+				small := g.inlineMatrix(g.intn(big.size-1)+1, true)
+				res = env.do("PUT", "/local-trust/"+id+"?merge=true", mustJSON(small.json()), wd)
+				w.Str("put").Str(id).Bool(true).mref(small).Bar().storeBody(res)
+				res = env.do("GET", "/local-trust/"+id, nil, wd)
+				w.Str("get").Str(id).Bar().storeBody(res)
+			}
+			steps += 5
+			g.count("scripted:empty-large-then-merge-smaller")
+		}
+		for s := 0; s < steps-func() int { if k%8 == 5 { return 5 }; return 0 }(); s++ {
 			id := ids[g.intn(len(ids))]
 			switch g.intn(7) {
 			case 0, 1, 2:
